@@ -13,6 +13,7 @@ package main
 
 import (
 	"bytes"
+	"compress/zlib"
 	"context"
 	_ "crypto/sha256"
 	_ "crypto/sha512"
@@ -43,7 +44,7 @@ import (
 var run *common.Run
 
 // generous bound for one copy of a graph of at most ~20 small nodes
-const watchdog = 20 * time.Second
+const watchdog = 40 * time.Second
 
 // hangs counts watchdog expiries; generation stops after the second one (each costs the full watchdog)
 var hangs int
@@ -558,9 +559,15 @@ func newDst(kind string) (oras.Target, func(), error) {
 
 // ---------------------------------------------------------------- one case
 
+// replayTok: '#' + base64(zlib(JSON of the case)); ignored by the model runner,
+// decoded by case_to_replay in bin/props.d/C03.py.
 func replayTok(spec *caseSpec) string {
 	js, _ := json.Marshal(spec)
-	return "#" + base64.StdEncoding.EncodeToString(js)
+	var buf bytes.Buffer
+	zw := zlib.NewWriter(&buf)
+	zw.Write(js)
+	zw.Close()
+	return "#" + base64.StdEncoding.EncodeToString(buf.Bytes())
 }
 
 func runCase(spec *caseSpec) {
@@ -1021,6 +1028,9 @@ func randomSpec(r *common.Rand, g *dag.Graph) *caseSpec {
 			withPreds = append(withPreds, n.ID)
 		}
 	}
+	if len(cands) == 0 {
+		return nil // a graph of foreign layers only: nothing to start from
+	}
 	if len(withPreds) > 0 && r.Chance(4, 5) {
 		spec.Start = common.Pick(r, withPreds)
 	} else {
@@ -1046,10 +1056,17 @@ func main() {
 		return
 	}
 	r := run.Rand
-	graphs := run.Scale(1500, 40000)
+	graphs := run.Scale(1500, 12000)
 	for i := 0; i < graphs && hangs < 2; i++ {
-		g := randomGraph(r)
-		if i%10 == 0 {
+		var g *dag.Graph
+		if i%3 == 2 {
+			g = fanGraph(r)
+			run.Count("graph=fan")
+		} else {
+			g = randomGraph(r)
+			run.Count("graph=random")
+		}
+		if i%10 == 0 || i%10 == 2 {
 			if err := g.SelfTest(); err != nil {
 				fmt.Fprintln(os.Stderr, "generator self-test failed:", err)
 				os.Exit(3)
@@ -1058,7 +1075,9 @@ func main() {
 		}
 		per := run.Scale(2, 3)
 		for k := 0; k < per; k++ {
-			runCase(randomSpec(r, g))
+			if spec := randomSpec(r, g); spec != nil {
+				runCase(spec)
+			}
 		}
 		if run.Thorough() && len(g.Nodes) <= 6 {
 			// small graphs: every start node x depth 0..3, no filter and one filter
@@ -1068,6 +1087,9 @@ func main() {
 				}
 				for d := 0; d <= 3; d++ {
 					spec := randomSpec(r, g)
+					if spec == nil {
+						continue
+					}
 					spec.Start, spec.Limit = n.ID, d
 					runCase(spec)
 				}
